@@ -73,7 +73,7 @@ class Core:
     """one generated Lean file: a set of methods reachable from each other"""
 
     def __init__(self, repo, name, sources, ignore=(), effects=None, observers=(), pure=None, records=None, links=None,
-                 consts=None, attr_effects=(), doc="", heap=False, opaque=None, oracles=None, ignore_targets=(), ignore_calls=(), observers_args=(), lists=None):
+                 consts=None, attr_effects=(), doc="", heap=False, opaque=None, oracles=None, ignore_targets=(), ignore_calls=(), observers_args=(), lists=None, observe_text=()):
         self.repo = repo
         self.name = name
         self.sources = sources  # list of (relative file, class name, [method names])
@@ -100,6 +100,8 @@ class Core:
         # object lists a `for` may run over (heap mode): "self.<path>" -> {"calls": {"[0].matches": "<world name>"}}; the fields of
         # the elements are environment keys (`Py.ikey`), the calls on them opaque calls into the world with the index first
         self.lists = lists or {}
+        # calls read as one environment key each, by their source text (`isinstance(self.left, Function)`, `self._left_nocontrib(self.left)`)
+        self.observe_text = set(observe_text)
         self.loopn = 0
         self.P = "Py.H." if heap else "Py."          # statement combinators
         self.EV = " env" if heap else ""             # the environment argument of the combinators
@@ -215,6 +217,8 @@ class Core:
         if obj is None:
             return None
         d = dotted(call.func)
+        if ast.unparse(call) in self.observe_text:
+            return None
         if d is not None and (d + "()" in self.observers or d in self.effects or d in self.pure or d in self.opaque
                               or d in self.oracles or d in self.observers_args or any(p.search(d) for p in self.ignore)):
             return None
@@ -389,6 +393,9 @@ class Core:
                 return f"(Py.strip_ {recv})"
             if e.func.attr == "find" and len(e.args) == 1:
                 return f"(Py.find_ {recv} {self.expr(e.args[0], ctx)})"
+        if isinstance(e, ast.Call) and ast.unparse(e) in self.observe_text:
+            txt = ast.unparse(e)
+            return f"(env {lean_str(prefix + txt[4:] if txt.startswith('self') else txt)})"
         if isinstance(e, ast.Call):
             d = dotted(e.func)
             if d is None:
@@ -629,9 +636,9 @@ class Core:
                 if isinstance(value, ast.Call):
                     d = dotted(value.func)
                     if d in self.opaque:
-                        if not self.heap or value.keywords:
+                        if not self.heap:
                             raise Untranslatable(f"{where()}: opaque call {d}")
-                        args = ", ".join(self.expr(a, ctx) for a in value.args)
+                        args = ", ".join([self.expr(a, ctx) for a in value.args] + [self.expr(kw.value, ctx) for kw in value.keywords])
                         return (pad + f"Py.H.call ext {lean_str(self.opaque[d])} [{args}] env effs fun v_{t.id} env effs =>\n"
                                 + self.block(rest, k, ctx, ind))
                     tgt = self.resolve_call(cls, value)
@@ -678,9 +685,9 @@ class Core:
                 return (pad + f"{P}eff {lean_str(tag)} [{', '.join(args)}]{EV} effs fun effs =>\n"
                         + self.block(rest, k, ctx, ind))
             if d in self.opaque:
-                if not self.heap or call.keywords:
+                if not self.heap:
                     raise Untranslatable(f"{where()}: opaque call {d}")
-                args = ", ".join(self.expr(a, ctx) for a in call.args)
+                args = ", ".join([self.expr(a, ctx) for a in call.args] + [self.expr(kw.value, ctx) for kw in call.keywords])
                 return (pad + f"Py.H.call ext {lean_str(self.opaque[d])} [{args}] env effs fun _ env effs =>\n"
                         + self.block(rest, k, ctx, ind))
             tgt = self.resolve_call(cls, call)
